@@ -1,6 +1,7 @@
 (* Source-text tie, C11 (round 3): ExecutionPlan.add_single_filters_to_feature_set regenerated from prepare/execution_plan.py
    (Gen/SrcFilter.v) against Model/FilterAttach.v (which steps get which single filters).  The final call
-   feature_set.add_filters(relevant_filters) is a PARAMETER of the generated definition. *)
+   feature_set.add_filters(relevant_filters) is a PARAMETER of the generated definition.  The two == tests are normalised with
+   eqb_sym first, so the proofs do not depend on which side of an == the source writes. *)
 From Coq Require Import List Bool ZArith Arith String.
 Import ListNotations.
 Require Import MV.Model.PySem MV.Gen.SrcFilter.
@@ -39,7 +40,7 @@ Lemma filter_loop2_src : forall fs n sf l rel,
     else Fall rel.
 Proof.
   intros fs n sf l. induction l as [|f l IH]; intros rel; [reflexivity|].
-  cbn [ExecutionPlan_add_single_filters_to_feature_set_loop2 existsb].
+  cbn [ExecutionPlan_add_single_filters_to_feature_set_loop2 existsb]. rewrite ?(String.eqb_sym n (ft_name f)).
   destruct (String.eqb (ft_name f) n); cbn [orb]; [|apply IH].
   rewrite nonempty_is_empty, py_set_eqb_set_eqb. destruct (is_empty rel) eqn:Er.
   - cbv zeta. rewrite IH, set_eqb_refl. destruct (existsb _ l); [destruct (is_empty sf)|]; reflexivity.
@@ -57,7 +58,7 @@ Lemma filter_loop1_src : forall fg fs l rel,
 Proof.
   intros fg fs l. induction l as [|[[g n] sf] l IH]; intros rel; [reflexivity|].
   cbn [ExecutionPlan_add_single_filters_to_feature_set_loop1 attach_from]. unfold attach_step, attach_gate. cbn [fst snd].
-  destruct (Nat.eqb g fg); cbn [andb]; [|apply IH].
+  rewrite ?(Nat.eqb_sym fg g). destruct (Nat.eqb g fg); cbn [andb]; [|apply IH].
   rewrite filter_loop2_src, exists_name. fold (names_of fs).
   destruct (existsb (String.eqb n) (names_of fs)); [|apply IH].
   destruct (is_empty rel); [apply IH|]. destruct (set_eqb rel sf); [apply IH|reflexivity].
